@@ -41,6 +41,9 @@ USERS = [
     ("minimize", "#minimize {{ S@1,V : {H} }}.", 2),
     ("maximize", "#maximize {{ S@1,V : {H} }}.", 2),
     ("weak_notuple", ":~ {H}. [S@1]", 2),
+    ("weak_varprio", ":~ {H}. [S@1,V]\n:~ dpe(B,A), t(L). [A@L-1,B]", 2),
+    ("weak_exprprio", ":~ {H}. [S@1,V]\n:~ dpe(B,A). [A@0+1,B]", 2),
+    ("weak_sameprio", ":~ {H}. [S@1,V]\n:~ dpe(B,A). [A@1,B]", 2),
     ("anon", "foo :- {HA}, S > 1.", 2),
     ("two_uses", "foo(X) :- X = #sum {{ S,V : {H} }}. bar(V) :- {H}, S > 2.", 2),
     ("plain_body", "foo(V,S) :- {H}.", 2),
@@ -55,6 +58,9 @@ DIRECT = [
     ("direct_weak_unify2", ":~ S = #{F} { Y,V : pe(V,Y) }. [S@1]\n:~ t(A). [A@1,B] : dpe(B,_)."),
     ("direct_weak_prio", ":~ S = #{F} { Y,V : pe(V,Y) }. [S@1]\n:~ t(A). [A@2]"),
     ("direct_weak_two", ":~ g(V), S = #{F} { Y : pe(V,Y) ; Y : dpe(V,Y), not pe(V,Y) }. [S@1,V]"),
+    ("direct_weak_varprio", ":~ g(V), S = #{F} { Y : pe(V,Y) }. [S@1,V]\n:~ dpe(B,A), t(L). [A@L-1,B]"),
+    ("direct_weak_exprprio", ":~ g(V), S = #{F} { Y : pe(V,Y) }. [S@1,V]\n:~ dpe(B,A). [A@0+1,B]"),
+    ("direct_weak_sameprio", ":~ g(V), S = #{F} { Y : pe(V,Y) }. [S@1,V]\n:~ dpe(B,A). [A@1,B]"),
     ("direct_neg", ":~ S = #{F} { Y,V : pe(V,Y) }. [-S@1]"),
     ("direct_min", "#minimize { S@1 : S = #{F} { Y,V : pe(V,Y) } }."),
 ]
